@@ -215,6 +215,24 @@ CHECKS.update({
     ),
 })
 
+CHECKS.update({
+    "C15": (
+        "exploration",
+        "exhaustive enumeration: all 1,114,112 code points x 5 grammars against an "
+        "arithmetic predicate; code points x 8 label positions x 7 configurations "
+        "with an oracle on exception type and pos/lineno/colno arithmetic",
+        "The character tables are checked completely on every run. Positioned loads "
+        "cover code points 0..0x2FF, every range boundary and 1500 seeded random code "
+        "points in the quick tier and every code point in the thorough tier, in "
+        "parameter names, unquoted and quoted values, comments, units, between "
+        "statements, at a line end and after END, under the strict parsers, under "
+        "pvl.loads(grammar=...) and under the default loader.",
+        "Trusted: the arithmetic predicate taken from the property statement; the "
+        "eight label templates.",
+        "DESIGN.md 4/C15",
+    ),
+})
+
 PENDING = {}   # id -> reason while a check is not built yet
 
 
